@@ -350,7 +350,7 @@ class AttributesConverter(object):
     def message_to_proto(self, message_attributes):
         # type: (MessageAttributes) -> Message
         message = Message()
-        if message_attributes.conversation:
+        if message_attributes.conversation is not None:
             message.conversation = message_attributes.conversation
         if message_attributes.image:
             message.image_message.MergeFrom(self.image_to_proto(message_attributes.image))
@@ -379,7 +379,7 @@ class AttributesConverter(object):
 
     def proto_to_message(self, proto):
         # type: (Message) -> MessageAttributes
-        conversation = proto.conversation if proto.conversation else None
+        conversation = proto.conversation if proto.HasField("conversation") else None
         image = self.proto_to_image(proto.image_message) if proto.HasField("image_message") else None
         contact = self.proto_to_contact(proto.contact_message) if proto.HasField("contact_message") else None
         location = self.proto_to_location(proto.location_message) if proto.HasField("location_message") else None
